@@ -432,10 +432,12 @@ func OP_MAP_LOAD_Handler(v *VM) {
 
 //goland:noinspection GoSnakeCaseUsage
 func OP_OBJ_LOAD_Handler(v *VM) {
-	idx, w := v.readMediumInt(v.pc)
+	name, w := v.readConst(v.pc)
 	v.pc += w
 	o := v.Pop().Obj()
-	v.Push(o.V[idx])
+	vl, ok := o.Get(name.(string))
+	util.Assert(ok, "undefined field %s of %s", name, o)
+	v.Push(vl)
 }
 
 //goland:noinspection GoSnakeCaseUsage
